@@ -76,7 +76,20 @@ func LoadProgram() (*Program, error) {
 		if fn.Pkg == nil && fn.Origin() == nil {
 			continue
 		}
-		P.funcs[FuncKey(fn)] = fn
+		// the short key of a repository package may coincide with a standard-library one ("log.init" of
+		// notation-go/log and of package log): the repository's function wins, whatever the iteration order
+		k := FuncKey(fn)
+		if old := P.funcs[k]; old != nil && old != fn {
+			oldRepo := old.Pkg != nil && strings.HasPrefix(old.Pkg.Pkg.Path(), repoModule)
+			newRepo := fn.Pkg != nil && strings.HasPrefix(fn.Pkg.Pkg.Path(), repoModule)
+			if oldRepo && !newRepo {
+				continue
+			}
+			if oldRepo == newRepo && fn.Pkg != nil && old.Pkg != nil && old.Pkg.Pkg.Path() < fn.Pkg.Pkg.Path() {
+				continue
+			}
+		}
+		P.funcs[k] = fn
 	}
 	return P, nil
 }
